@@ -55,5 +55,5 @@ func (op ObjectProperties) MarshalJSON() ([]byte, error) {
 		}
 	}
 	b.WriteByte('}')
-	return b.Bytes(), nil
+	return internal.CopyBytes(b.Bytes()), nil
 }
